@@ -43,6 +43,14 @@ _KINDS = {
 }
 
 
+def _aggregate(*a, **kw):
+  # producing a report over whatever has been recorded is always a valid call
+  try:
+    return VarzAggregator.Aggregate(*a, **kw)
+  except Exception as e:
+    raise Violation(ID, 'aggregate-raised', 'VarzAggregator.Aggregate raised %r' % (e,))
+
+
 class _NamedSource(Source):
   def __repr__(self):
     return 'NamedSource(%s, %s, %s, %s)' % (self.method, self.service, self.endpoint, self.client_id)
@@ -166,7 +174,7 @@ def _exec_long(plan):
       advance(1.0)
       TV(src()).t(rnd.uniform(5.0, 9.0))
       if sec % 100 == 0:
-        agg = VarzAggregator.Aggregate(data, VarzReceiver.VARZ_METRICS)
+        agg = _aggregate(data, VarzReceiver.VARZ_METRICS)
         got = agg[METRIC['t']].get(('busy', None))
         res = [v for s_, v in data[METRIC['t']].items() if s_.service == 'busy']
         if len(res) != 1:
@@ -186,7 +194,7 @@ def _exec_long(plan):
     # the workload changes: far more samples in a different range than the reservoir holds, then one more report
     for _ in range(40000):
       rec(rnd.uniform(100.0, 101.0))
-    agg = VarzAggregator.Aggregate(data, VarzReceiver.VARZ_METRICS)
+    agg = _aggregate(data, VarzReceiver.VARZ_METRICS)
     got = agg[METRIC['t']].get(('busy', None))
     res = [v for s_, v in data[METRIC['t']].items() if s_.service == 'busy']
     retained = list(res[0].data)
@@ -265,8 +273,8 @@ def execute(plan):
 
     if plan.get('other_report_first'):
       # another report over the same data, rolled up by (method, endpoint), is produced first
-      VarzAggregator.Aggregate(data, VarzReceiver.VARZ_METRICS, key_selector=lambda src_: (src_.method, src_.endpoint))
-    agg = VarzAggregator.Aggregate(data, VarzReceiver.VARZ_METRICS)
+      _aggregate(data, VarzReceiver.VARZ_METRICS, key_selector=lambda src_: (src_.method, src_.endpoint))
+    agg = _aggregate(data, VarzReceiver.VARZ_METRICS)
 
     for k, fts in tuples_used.items():
       n_series = len(data[METRIC[k]])
@@ -335,7 +343,7 @@ def execute(plan):
         settle()
       if not all(a.ready() for a in ars):
         raise Violation(ID, 'e2e-incomplete', 'stub calls did not complete')
-      agg = VarzAggregator.Aggregate(data, VarzReceiver.VARZ_METRICS)
+      agg = _aggregate(data, VarzReceiver.VARZ_METRICS)
       base = 'scales.MessageDispatcher.'
       for d in (0, 1):
         mine = per[d]
